@@ -1485,6 +1485,13 @@ fn table_case(rep: &mut Report, cx: &Ctx) {
     rep.eval();
     let keys = cx.keys_in_order.iter().map(|k| hex(k.as_bytes())).collect::<Vec<_>>().join(",");
     rep.case("T", &format!("{} | {keys}", dump_map(&cx.curated)));
+    // U: the same two observations of a SECOND new_curated (other dictionary, other dialect: the statement sequence does not
+    // depend on either) against the extracted EXECUTION of the generated statement table (C11Curated.new_curated_model)
+    {
+        let g2 = LintGroup::new_curated(Arc::new(harper_core::MutableDictionary::new()), Dialect::British);
+        let keys2 = g2.iter_keys().map(|k| hex(k.as_bytes())).collect::<Vec<_>>().join(",");
+        rep.case("U", &format!("{} | {keys2}", dump(&g2.config)));
+    }
     let distinct: BTreeSet<&String> = cx.keys_in_order.iter().collect();
     rep.extra.insert("curated_rules".into(), json!({"registered": cx.keys_in_order.len(), "distinct_switches": distinct.len(), "config_keys": cx.curated.len(),
         "registered_in_both_maps": cx.keys_in_order.len() - distinct.len()}));
